@@ -305,6 +305,16 @@ class Interp:
                 cur = nxt
             final += cur
             return final, raises
+        if (isinstance(node, ast.Compare) and len(node.ops) == 1 and isinstance(node.ops[0], (ast.Eq, ast.NotEq)) and self.rule.wants_compose
+                and isinstance(node.left, ast.Tuple) and isinstance(node.comparators[0], ast.Tuple)
+                and len(node.left.elts) == len(node.comparators[0].elts) > 0
+                and not any(isinstance(e, ast.Starred) for e in node.left.elts + node.comparators[0].elts)):
+            # (a, b, c) == (x, y, z)  ==  a == x and b == y and c == z   (each component decided and remembered on its own)
+            links = [ast.copy_location(ast.Compare(left=a, ops=[ast.Eq()], comparators=[b]), node) for a, b in zip(node.left.elts, node.comparators[0].elts)]
+            conj = ast.copy_location(ast.BoolOp(op=ast.And(), values=links), node)
+            if isinstance(node.ops[0], ast.NotEq):
+                conj = ast.copy_location(ast.UnaryOp(op=ast.Not(), operand=conj), node)
+            return self.truth_fork(st, conj)
         if isinstance(node, ast.Compare) and len(node.ops) == 1:
             op, right = node.ops[0], node.comparators[0]
             if isinstance(op, (ast.Is, ast.IsNot)) and isinstance(right, ast.Constant) and right.value is None:
